@@ -79,6 +79,26 @@ type core struct {
 	hdr   http.Header
 	calls []ucall
 	cur   outcome
+	// auto (ways.go): the answers are not scripted per call; the writer accepts every byte until
+	// budget (if >= 0) is used up, then the rest of that call and all later calls fail
+	auto   bool
+	budget int
+}
+
+// answer: the (accepted, failed) of a body call of n bytes
+func (c *core) answer(n int) (int, bool) {
+	if !c.auto {
+		return c.cur.N, c.cur.Err
+	}
+	if c.budget < 0 || n <= c.budget {
+		if c.budget >= 0 {
+			c.budget -= n
+		}
+		return n, false
+	}
+	a := c.budget
+	c.budget = 0
+	return a, true
 }
 
 var errScripted = errors.New("scripted error")
@@ -86,11 +106,12 @@ var errScripted = errors.New("scripted error")
 func (c *core) Header() http.Header  { return c.hdr }
 func (c *core) WriteHeader(code int) { c.calls = append(c.calls, ucall{"WH", code, 0}) }
 func (c *core) Write(b []byte) (int, error) {
-	c.calls = append(c.calls, ucall{"W", len(b), c.cur.N})
-	if c.cur.Err {
-		return c.cur.N, errScripted
+	n, fail := c.answer(len(b))
+	c.calls = append(c.calls, ucall{"W", len(b), n})
+	if fail {
+		return n, errScripted
 	}
-	return c.cur.N, nil
+	return n, nil
 }
 
 type flPart struct{ c *core }
@@ -111,11 +132,12 @@ type rfPart struct{ c *core }
 
 func (r rfPart) ReadFrom(src io.Reader) (int64, error) {
 	all, _ := io.ReadAll(src)
-	r.c.calls = append(r.c.calls, ucall{"RF", len(all), r.c.cur.N})
-	if r.c.cur.Err {
-		return int64(r.c.cur.N), errScripted
+	n, fail := r.c.answer(len(all))
+	r.c.calls = append(r.c.calls, ucall{"RF", len(all), n})
+	if fail {
+		return int64(n), errScripted
 	}
-	return int64(r.c.cur.N), nil
+	return int64(n), nil
 }
 
 // fake builds a ResponseWriter with exactly the optional interfaces of the capability set
@@ -504,6 +526,11 @@ type isoCfg struct {
 	After []afterT `json:"after,omitempty"`
 	// the model also gets the context seen by the outermost After handler (directed sweep only)
 	afterToModel bool
+	// handlers that start the request's log context from scratch, UpdateContext(c.Reset()...), in some of the
+	// requests (resets.go); batches with such handlers are checked by the monitors only (the model has no Reset)
+	Resets []resetT `json:"resets,omitempty"`
+	// the requests are served one after the other (no barrier) instead of concurrently
+	Sequential bool `json:"sequential,omitempty"`
 }
 
 func safeWord(r *Rng, n int) string {
@@ -536,6 +563,9 @@ func coqByteLists(cs [][]byte) string {
 }
 
 func isoBatch(c *Ctx, cfg isoCfg) {
+	if cfg.Sequential {
+		cfg.Barrier = false
+	}
 	rr := seededRng(cfg.Seed)
 	sink := &lineSink{}
 	var base zerolog.Logger
@@ -621,12 +651,14 @@ func isoBatch(c *Ctx, cfg isoCfg) {
 		mws = append(mws, probe(0, false))
 	}
 	mws = append(mws, afterHandlers(cfg, 0)...)
+	mws = append(mws, resetHandlers(cfg, 0)...)
 	for j, hi := range cfg.Chain {
 		mws = append(mws, fieldHandlers[hi].mk(keys[j]))
 		if probeAt[j+1] && j+1 < len(cfg.Chain) {
 			mws = append(mws, probe(j+1, false))
 		}
 		mws = append(mws, afterHandlers(cfg, j+1)...)
+		mws = append(mws, resetHandlers(cfg, j+1)...)
 	}
 	mws = append(mws, probe(len(cfg.Chain), true))
 	var h http.Handler = http.HandlerFunc(func(w http.ResponseWriter, rq *http.Request) { w.WriteHeader(204) })
@@ -683,13 +715,18 @@ func isoBatch(c *Ctx, cfg isoCfg) {
 	} else {
 		for i := range vals {
 			done.Add(1)
-			go func(v reqVals) {
+			serve := func(v reqVals) {
 				defer done.Done()
 				rq := mkReq(v, "")
 				rq.RemoteAddr = v.Remote
 				rq.Host = v.Host
 				h.ServeHTTP(httptest.NewRecorder(), rq)
-			}(vals[i])
+			}
+			if cfg.Sequential {
+				serve(vals[i])
+			} else {
+				go serve(vals[i])
+			}
 		}
 		done.Wait()
 	}
@@ -756,7 +793,7 @@ func isoBatch(c *Ctx, cfg isoCfg) {
 					if j == i {
 						continue
 					}
-					for _, s := range []string{o.URL, o.UA, o.Referer, o.Custom, o.Remote, o.Host, o.Method} {
+					for _, s := range append([]string{o.URL, o.UA, o.Referer, o.Custom, o.Remote, o.Host, o.Method}, resetValues(cfg, j)...) {
 						if s != "" && len(g) > 0 && strings.Contains(g[0], `"`+s+`"`) {
 							k = "request-field-leak"
 							desc = fmt.Sprintf("request %d's event carries request %d's value %q: %s", i, j, s, g[0])
@@ -769,6 +806,24 @@ func isoBatch(c *Ctx, cfg isoCfg) {
 		if probeAt[0] {
 			checkAt(0)
 		}
+		// a reset handler at position p discards everything the request's context held and starts it again
+		applyResets := func(pos int) {
+			for ri, rs := range cfg.Resets {
+				if rs.Pos != pos || !rs.acts(i) {
+					continue
+				}
+				ctx, nf, last = "{", 0, '{'
+				for f := 0; f < rs.Fields; f++ {
+					if nf > 0 {
+						ctx += ","
+					}
+					ctx += field(resetKey(ri, f), resetValue(ri, f, i))
+					nf++
+					last = '"'
+				}
+			}
+		}
+		applyResets(0)
 		for j, hi := range cfg.Chain {
 			val, ok := fieldHandlers[hi].val(v, ids[i])
 			if ok {
@@ -783,6 +838,7 @@ func isoBatch(c *Ctx, cfg isoCfg) {
 			if probeAt[j+1] && j+1 < len(cfg.Chain) {
 				checkAt(j + 1)
 			}
+			applyResets(j + 1)
 		}
 		checkAt(len(cfg.Chain))
 		checkAt(len(cfg.Chain) + 1000)
@@ -854,10 +910,12 @@ func isoBatch(c *Ctx, cfg isoCfg) {
 	}
 	term := fmt.Sprintf("(CIso %s %s %s, OIso %s)", bterm, CoqList(ws), CoqList(ss), CoqList(os_))
 	jcfg["final_contexts"] = finalCtx
-	if cfg.N <= 8 || cfg.Seed%4 == 0 || c.Thorough() {
+	if len(cfg.Resets) > 0 {
+		// monitors only
+	} else if cfg.N <= 8 || cfg.Seed%4 == 0 || c.Thorough() {
 		c.AddCase(term, jcfg) // the monitors above run on every batch; the largest batches go to the model one in four
 	}
-	if cfg.afterToModel && len(cfg.After) > 0 {
+	if cfg.afterToModel && len(cfg.After) > 0 && len(cfg.Resets) == 0 {
 		// the context the outermost After handler logged with, once the chain had returned: the model's
 		// final context of the request (one logger per request, every append went to it)
 		as := make([]string, cfg.N)
@@ -875,7 +933,10 @@ func isoBatch(c *Ctx, cfg isoCfg) {
 	for _, hi := range cfg.Chain {
 		names = append(names, fieldHandlers[hi].Name)
 	}
-	c.Count(fmt.Sprintf("iso|%s|%v|%v|%d|%d", cfg.Base, cfg.Chain, cfg.Probes, cfg.N, cfg.Seed), cfg.N >= 2 && len(cfg.Chain) >= 1)
+	c.Count(fmt.Sprintf("iso|%s|%v|%v|%d|%d|%v|%v", cfg.Base, cfg.Chain, cfg.Probes, cfg.N, cfg.Seed, cfg.Resets, cfg.Sequential), cfg.N >= 2 && (len(cfg.Chain) >= 1 || len(cfg.Resets) >= 1))
+	if len(cfg.Resets) > 0 {
+		c.Hist("iso_resets", fmt.Sprintf("%d reset handlers", len(cfg.Resets)))
+	}
 	c.Hist("iso_base", cfg.Base)
 	c.Hist("iso_requests", fmt.Sprintf("%d", cfg.N))
 	c.Hist("iso_chain_len", fmt.Sprintf("%d", len(cfg.Chain)))
@@ -932,7 +993,7 @@ func genIso(r *Rng, server bool) isoCfg {
 }
 
 func runC18(c *Ctx) {
-	c.Res.Rule = "proxy: every sequence of <=L calls over {WriteHeader(201), WriteHeader(404), Write(3 accepted 3), Write(4 accepted 1 + error), ReadFrom(5 accepted 5), ReadFrom(5 accepted 2 + error), Flush} for the writers basic / Flusher / CloseNotifier+Flusher+Hijacker+ReaderFrom (L=5), then seeded random sequences of 1..14 calls (12 status codes incl. 0/1xx/999, lengths 0..2000, any accepted count with/without error, empty ReadFrom) over 7 capability sets, all through the real hlog.AccessHandler on a recording fake ResponseWriter; stacked AccessHandlers (the ResponseWriter given to one is the proxy of another) with calls made between them: two layers exhaustively over <=2 calls sent by the middleware before the inner AccessHandler x <=2 calls of the inner handler x <=1 call afterwards on {WriteHeader(202), WriteHeader(404), Write(3), ReadFrom(5), ReadFrom(5 accepted 2 + error)} for the three writers, then random 2-3 layers over all capability sets; every layer must report the calls made inside it; plus sequences <=3 (thorough 5) on a real net/http server compared with what the client received; non-trivial = at least two kinds of call or a partial/failed write. isolation: batches of 1..32 concurrent requests with distinct URL/method/remote address/user agent/referer/header/host values through NewHandler + a random list of 0..8 field handlers (12 kinds, repeats allowed), probes at random chain positions, handlers that log after the rest of the chain returned (hlog.AccessHandler with a logging callback, or a plain middleware) at random positions and, as a directed sweep, at every position of chains of one, two and all twelve field handlers in rotated/reversed orders - such a line must carry every field the chain's handlers added for that request and nothing else; a barrier before the final events, base logger with nil context / spare capacity / longer than 500 bytes, direct ServeHTTP and a real httptest.Server; non-trivial = >=2 requests and >=1 field handler"
+	c.Res.Rule = "proxy: every sequence of <=L calls over {WriteHeader(201), WriteHeader(404), Write(3 accepted 3), Write(4 accepted 1 + error), ReadFrom(5 accepted 5), ReadFrom(5 accepted 2 + error), Flush} for the writers basic / Flusher / CloseNotifier+Flusher+Hijacker+ReaderFrom (L=5), then seeded random sequences of 1..14 calls (12 status codes incl. 0/1xx/999, lengths 0..2000, any accepted count with/without error, empty ReadFrom) over 7 capability sets, all through the real hlog.AccessHandler on a recording fake ResponseWriter; stacked AccessHandlers (the ResponseWriter given to one is the proxy of another) with calls made between them: two layers exhaustively over <=2 calls sent by the middleware before the inner AccessHandler x <=2 calls of the inner handler x <=1 call afterwards on {WriteHeader(202), WriteHeader(404), Write(3), ReadFrom(5), ReadFrom(5 accepted 2 + error)} for the three writers, then random 2-3 layers over all capability sets; every layer must report the calls made inside it; plus sequences <=3 (thorough 5) on a real net/http server compared with what the client received; ways (ways.go): the handler produces its response through w.Write / io.WriteString / fmt.Fprintf / io.Copy from a plain reader, a bytes.Reader, a strings.Reader / ReadFrom where offered / http.Error / json.Encoder / bufio.Writer / WriteHeader - every way alone and every ordered pair, payload sizes 0..40000, random sequences of 3-6 - on every kind of underlying writer: the recording fake with each of the 7 capability sets without WriteString and the 3 main ones with it (accepting everything, or failing after a byte budget), httptest.ResponseRecorder, http.TimeoutHandler on a recorder, a real net/http connection with and without http.TimeoutHandler; reported status/size must be what that writer received; non-trivial = at least two kinds of call or a partial/failed write. isolation: batches of 1..32 concurrent requests with distinct URL/method/remote address/user agent/referer/header/host values through NewHandler + a random list of 0..8 field handlers (12 kinds, repeats allowed), probes at random chain positions, handlers that log after the rest of the chain returned (hlog.AccessHandler with a logging callback, or a plain middleware) at random positions and, as a directed sweep, at every position of chains of one, two and all twelve field handlers in rotated/reversed orders - such a line must carry every field the chain's handlers added for that request and nothing else; a barrier before the final events, base logger with nil context / spare capacity / longer than 500 bytes, direct ServeHTTP and a real httptest.Server; reset handlers (resets.go): UpdateContext(c.Reset().Str..) as the first / a later context update of all, every other or one of the requests, base logger with fields / long / nil, requests concurrent with barrier, concurrent, one after the other, plus random batches with such handlers added - the base logger stays unchanged, requests that do not reset carry the base fields as configured, a request that resets carries what it added after the reset (monitors only); non-trivial = >=2 requests and >=1 field or reset handler"
 	c.OpenShards("From Verif Require Import Base.Prelude Misc.Hlog Misc.HlogHeap Harness.C18H.\nOpen Scope Z_scope.",
 		"c18_case * c18_obs", "mismatches c18_run c18_eqb", 1000)
 
@@ -983,6 +1044,8 @@ func runC18(c *Ctx) {
 	// ---- proxy on a real server
 	realServer(c)
 	realServerNested(c)
+	// ---- every way of producing a response x every kind of underlying writer (ways.go)
+	waysSweep(c)
 
 	// ---- isolation (small shards: the cases are large)
 	c.OpenShards("From Verif Require Import Base.Prelude Misc.Hlog Misc.HlogHeap Harness.C18H.\nOpen Scope Z_scope.",
@@ -994,6 +1057,7 @@ func runC18(c *Ctx) {
 	for i := 0; i < nb; i++ {
 		isoBatch(c, genIso(c.R.Fork(), false))
 	}
+	isoResets(c) // handlers that reset the request's context, at every position, in all / some requests (resets.go)
 	isoOrders(c) // every order of field handlers relative to a handler that logs after the chain returned (orders.go)
 	c.OpenShards("From Verif Require Import Base.Prelude Misc.Hlog Misc.HlogHeap Harness.C18H.\nOpen Scope Z_scope.",
 		"c18_case * c18_obs", "mismatches c18_run c18_eqb", 5)
@@ -1025,6 +1089,9 @@ func replayC18(c *Ctx) {
 			Ops    []opT    `json:"ops"`
 			Layers []layerT `json:"layers"`
 			Config *isoCfg  `json:"config"`
+			Writer string   `json:"writer"`
+			Budget int      `json:"budget"`
+			Steps  []stepT  `json:"steps"`
 		} `json:"case"`
 	}
 	if err := json.Unmarshal(b, &rp); err != nil {
@@ -1041,6 +1108,10 @@ func replayC18(c *Ctx) {
 		}
 	case "real-server-nested":
 		realServerNested(c)
+	case "ways":
+		srv := newWaysSrv()
+		defer srv.close()
+		waysCase(c, srv, rp.Case.Writer, rp.Case.Budget, rp.Case.Steps, "replay")
 	default:
 		realServer(c)
 	}
